@@ -261,8 +261,8 @@ Ltac exhead :=
   end.
 Lemma truthy_if (c : bool) : negb ((if c then 1 else 0) =? 0) = c.
 Proof. destruct c; reflexivity. Qed.
-Ltac ctidy := cbn [bindr fst snd truthy bool_val negb andb orb app List.length nth_error list_set]; zground;
-              cbn [bindr fst snd truthy bool_val negb andb orb]; rewrite ?truthy_if.
+Ltac ctidy := repeat (progress (cbn [bindr fst snd truthy bool_val negb andb orb app List.length nth_error list_set]; zground));
+              rewrite ?truthy_if.
 (* a condition on symbolic data is waiting: the proof has to decide it before the run goes on *)
 Ltac has_if := match goal with |- ?L = _ => match L with context [if ?c then _ else _] => lazymatch c with truthy _ => fail | _ => idtac end end end.
 Ltac sstep prg := tryif has_if then fail else (first [ callstep prg | ev1 | exhead ]; ctidy).
